@@ -13,11 +13,8 @@ def run(ctx):
     engine_corr.campaign(ctx, {"C10"})
     planlevel.plan_campaign(ctx, {"C10"})
     overlap(ctx)
-    try:
-        import retry_corr
-        retry_corr.run_retry(ctx)
-    except ImportError:
-        ctx.notes["retry_correspondence"] = "not yet integrated"
+    import retry_corr
+    retry_corr.run_retry(ctx)       # real create_retry / run(retry=...) vs Engine/Retry.v
 
 
 def overlap(ctx):
